@@ -15,7 +15,7 @@ RULE = ("cases are (kind, 32-byte key class, plaintext bytes, method) drawn from
         "malformed (short/unaligned/empty ciphertext, unknown or non-string method, wrongly shaped stored secrets "
         "through SecureField.to_python); a case is non-trivial when at least one oracle comparison was evaluated; "
         "distinct = distinct case content")
-REQUIRED = ("stored_secrets_with_equal_plaintext_compared", "aes_oracle_decrypts", "aes_library_decrypts_oracle_output", "xor_oracle_checks", "malformed_rejected",
+REQUIRED = ("roundtrips_with_mutable_buffers", "stored_secrets_with_equal_plaintext_compared", "aes_oracle_decrypts", "aes_library_decrypts_oracle_output", "xor_oracle_checks", "malformed_rejected",
             "iv_sets_checked", "wrong_key_checks", "stored_secret_shapes_rejected", "sessions_judged", "provider_objects_judged",
             "rekeyed_objects_judged", "key_file_replaced_between_contexts", "iv_checks_under_reseeded_global_random", "large_plaintexts",
             "stored_secret_reloaded_after_rekey")
@@ -146,6 +146,20 @@ def run(case, ctx, res):
         if back2 != ptb:
             res.viol("M-roundtrip", feat, "a new KeyFile object decrypts to something else (%d bytes)" % len(ptb))
         res.count("roundtrips")
+        # the same with mutable buffers: the caller's plaintext and ciphertext objects are read, not written, and a second
+        # decryption of the same stored value gives the same answer
+        if ptb and case["r"] % 3 == 0:
+            buf = bytearray(ptb)
+            with kf as k:
+                sv2 = k.encrypt(buf, method=sv.method)
+                held = cc.encryption.SecureValue(sv2.method, bytearray(sv2.ciphertext))
+                first, second = k.decrypt(held), k.decrypt(held)
+            res.count("roundtrips_with_mutable_buffers")
+            if bytes(buf) != ptb:
+                res.viol("M-roundtrip", feat + ":buffer", "encrypt() changed the bytearray it was given (%d bytes)" % len(ptb))
+            if bytes(first) != ptb or bytes(second) != ptb or bytes(held.ciphertext) != bytes(sv2.ciphertext):
+                res.viol("M-roundtrip", feat + ":buffer", "decrypting one stored value (a bytearray ciphertext) twice gives %r then %r for a "
+                         "%d-byte plaintext" % (bytes(first)[:12], bytes(second)[:12], len(ptb)))
         ct = sv.ciphertext
         if sv.method == "aes":
             if len(ct) < 32 or len(ct) % 16:
